@@ -102,6 +102,7 @@ def obligations(tier: str):
             add(f"tree_grow_{fxn}_crossover", fixture=fxn, rep="tree", decider="grow", max_depth=2, ops=["crossover"])
     add("tree_grow_f2blk_create", fixture="f2", grammar_fn="grammar_blk", rep="tree", decider="grow", max_depth=3, timeout=200)
     add("tree_full_f2blk_create", fixture="f2", grammar_fn="grammar_blk", rep="tree", decider="full", max_depth=3, timeout=200)
+    add("tree_grow_f11_concrete_start_crossover", fixture="f11", rep="tree", decider="grow", max_depth=3, ops=["crossover"], timeout=400)
     add("tree_grow_f0_crossover", fixture="f0", rep="tree", decider="grow", max_depth=2, ops=["crossover"])
     if T:
         add("tree_grow_f2l_crossover", fixture="f2", grammar_fn="grammar_lst", rep="tree", decider="grow", max_depth=2, ops=["crossover"])
